@@ -175,7 +175,7 @@ pub fn generate(seed: u64, n: usize, thorough: bool, _corpus: Option<&str>) -> V
     let mut r = Rng::new(seed).fork(); // fork: `Rng::new(s+1)` is `Rng::new(s)` shifted by one draw, the fork decorrelates seeds
     let tol = gen_lp::measured_tolerance();
     let mut cases = vec![];
-    EFFORT.store(if thorough { 500 } else { 100 }, std::sync::atomic::Ordering::Relaxed);
+    EFFORT.store(if thorough { 400 } else { 100 }, std::sync::atomic::Ordering::Relaxed);
     // --- the documented example and the classic shapes first
     {
         let mut m = LinearModel::new();
